@@ -74,6 +74,18 @@ def iter_patterns(unit, alg, rng, arity=2):
     elif fam == 'random':
         for _ in range(unit.get('count', 100)):
             yield tuple(gen.random_pattern(rng, canon, d, cap) for _ in range(arity))
+    elif fam == 'highgrade':
+        # operands drawn from the top grades (d-2 .. d) plus an occasional low blade: exercises grade >= 4 arithmetic (mod-4 sign rules)
+        top = [k for k in canon if gen.grade_of(k) >= max(0, d - 2)]
+        for _ in range(unit.get('count', 50)):
+            t = []
+            for _a in range(arity):
+                ks = rng.sample(top, min(len(top), rng.randint(1, max(1, cap - 1))))
+                if rng.random() < 0.5:
+                    ks.append(rng.choice(canon))
+                ks = list(dict.fromkeys(ks))
+                t.append(tuple(ks))
+            yield tuple(t)
     elif fam == 'sparse':
         for _ in range(unit.get('count', 100)):
             t = []
